@@ -19,7 +19,7 @@ OPTIONAL = list("~!$&'()*+,;=:@?-._") + list("abm01")
 
 LEAVES = [{"type": "string"}, {"type": "integer"}, {"type": "object"}, {"type": "array"}, {"type": "boolean"},
           {"type": "null"}, {"enum": [1, "a"]}, {"enum": [None]}, {"minimum": 2}, {"maximum": 0}, {"maxLength": 1},
-          {"minLength": 2}, {"minItems": 1}, {"maxItems": 0}, {"pattern": "^a"}, {"type": ["string", "null"]}, {"uniqueItems": True}]
+          {"minLength": 2}, {"minItems": 1}, {"maxItems": 0}, {"pattern": "^a"}, {"type": ["string", "null"]}, {"uniqueItems": True}, {}, {}]
 leaf = st.sampled_from(LEAVES).map(copy.deepcopy)
 INST_SCALARS = [None, True, False, 0, 1, 2, 3, -1, 1.5, "", "a", "ab", "b", "abc", 3, 2, 1, "b", "a"]
 inst_scalar = st.sampled_from(INST_SCALARS)
@@ -299,6 +299,18 @@ def worlds(draw, ninst=3, hostile_names=True, split_paths=False):
                 classes.append("nested-id")
                 if not nid.startswith("http"):
                     classes.append("nested-id-relative")
+    if d >= 6 and draw(st.booleans()):
+        # trivial targets: the boolean schemas (and {} above) as definitions in the root and in external documents
+        for holder in [defs] + [dd["definitions"] for dd in docs.values()]:
+            for n in list(holder):
+                if isinstance(holder[n], dict) and "$ref" not in holder[n] and draw(st.integers(0, 5)) == 0:
+                    holder[n] = draw(st.booleans())
+                    classes.append("boolean-definition")
+    if draw(st.integers(0, 7)) == 0:
+        # the OTHER draft family's id keyword is an unknown keyword here: it must not change any base URI
+        other = "$id" if idkw == "id" else "id"
+        root[other] = draw(st.sampled_from(["http://ex.test/elsewhere/", "http://other.test/q/", "zzz/"]))
+        classes.append("foreign-id-keyword")
     xs = draw(st.lists(instances(), min_size=ninst, max_size=ninst))
     if split_paths:
         inner = [(u, t) for (u, t) in targets if u != root_doc and t and t[-1] in ("r", "r/1", "~r")]
